@@ -174,7 +174,13 @@ def eval_dfxp(desc, fit, relativize=True):
     v = []
     klass = desc.get("klass", "single-level")
     try:
-        doc = shared.obj(DFXPWriter, fit_to_screen=fit, relativize=relativize).write(build(desc))
+        from mc import canon
+
+        src = build(desc)
+        before = canon.digest(src)
+        doc = shared.obj(DFXPWriter, fit_to_screen=fit, relativize=relativize).write(src)
+        if canon.digest(src) != before:
+            v.append((f"C12/dfxp/{klass}/caption-set-layouts-changed-by-writing", {"fit": fit}))
         cs = shared.obj(DFXPReader).read(doc)
     except Exception as e:  # noqa
         return [(f"C12/dfxp/{klass}/raises:{type(e).__name__}", {"err": str(e)[:300]})], "raises"
@@ -348,6 +354,61 @@ def reuse_eval(item):
     return fn(item[1], item[2])
 
 
+def eval_dfxp_doc(variant):
+    """a generated DFXP document whose region is spelled by hand -> effective layout of its text"""
+    from pycaption import DFXPReader
+
+    from mc.ref import docs
+
+    origin, extent, pad_vals, align = variant
+    attrs = ""
+    if origin:
+        attrs += f' tts:origin="{origin[0]}% {origin[1]}%"'
+    if extent:
+        attrs += f' tts:extent="{extent[0]}% {extent[1]}%"'
+    if pad_vals:
+        attrs += ' tts:padding="' + " ".join(p + "%" for p in pad_vals) + '"'
+    if align:
+        attrs += f' tts:textAlign="{align[0]}" tts:displayAlign="{ {"top": "before", "center": "center", "bottom": "after"}[align[1]] }"'
+    doc = docs.dfxp_doc([("en", [('begin="1s" end="2s" region="r1"', "t0")])], head=f'<layout><region xml:id="r1"{attrs}/></layout>')
+    try:
+        cs = shared.obj(DFXPReader).read(doc)
+    except Exception as e:  # noqa
+        return [(f"C12/dfxp-document/raises:{type(e).__name__}", {"err": str(e)[:200], "doc": doc})], "raises"
+    # TTML shorthand: 1 value = all; 2 = (before/after, start/end); 3 = (before, start/end, after); 4 = before end after start
+    pad = None
+    if pad_vals:
+        z = list(pad_vals)
+        if len(z) == 1:
+            before = end = after = start = z[0]
+        elif len(z) == 2:
+            before, end, after, start = z[0], z[1], z[0], z[1]
+        elif len(z) == 3:
+            before, end, after, start = z[0], z[1], z[2], z[1]
+        else:
+            before, end, after, start = z
+        pad = (before, after, start, end)
+    want = norm_spec((origin, extent, pad, align))
+    c = cs.get_captions("en")[0]
+    n = [x for x in c.nodes if x.type_ == 1][0]
+    got = norm_real(n.layout_info or c.layout_info or cs.get_layout_info("en"))
+    if got not in want:
+        comp = [nm for nm, a, b in zip(("origin", "extent", "padding", "alignment"), got, sorted(want, key=repr)[0]) if a != b]
+        return [(f"C12/dfxp-document/padding-arity{len(pad_vals) if pad_vals else 0}/effective-layout-differs:" + "+".join(comp), {"got": got, "want": sorted(want, key=repr), "region": attrs})], "differs"
+    return [], got
+
+
+def dfxp_doc_variants():
+    pads = [None, ("1",), ("1", "3"), ("1", "3", "4"), ("1", "3", "4", "2"), ("0", "2"), ("2.5", "0", "1")]
+    for o in (None, ("10", "20")):
+        for e in (None, ("30", "40")):
+            for p in pads:
+                for a in (None, ("center", "top"), ("right", "bottom")):
+                    if o is None and e is None and p is None and a is None:
+                        continue
+                    yield (o, e, p, a)
+
+
 def single_level_desc(spec, level):
     if level == "lang":
         return {"lang": spec, "captions": [{"layout": None, "parts": [("t0", None, "plain")]}], "klass": "lang-level"}
@@ -365,6 +426,7 @@ def shards(tier, seed):
     sh.append({"k": "multi"})
     sh.append({"k": "pairs"})
     sh.append({"k": "reuse"})
+    sh.append({"k": "dfxp-docs"})
     if tier == "thorough":
         for part in range(16):
             sh.append({"k": "two-level-grid", "part": part, "nparts": 16, "tier": tier})
@@ -385,7 +447,13 @@ def run_shard(d):
         for sig, det in v:
             acc.violation(sig, {"fn": fn.__name__, "desc": desc, "fit": fit}, det)
 
-    if k == "reuse":
+    if k == "dfxp-docs":
+        for var in dfxp_doc_variants():
+            v, out = eval_dfxp_doc(var)
+            acc.case(("dfxp-doc", var), True, out, {"generated_dfxp_region": var})
+            for sig, det in v:
+                acc.violation(sig, {"fn": "dfxp-doc", "variant": var}, det)
+    elif k == "reuse":
         shared.run(acc, reuse_items(), reuse_eval, sample=lambda it: {"reuse_run_step": [it[0], it[1], it[2]]})
     elif k == "two-level-grid":
         partner = REDUCED[2]
@@ -465,6 +533,9 @@ def _t(x):
 def replay(case):
     if case.get("reuse"):
         return shared.replay(reuse_items(), reuse_eval, case["index"])
+    if case["fn"] == "dfxp-doc":
+        v, _ = eval_dfxp_doc(_t(case["variant"]))
+        return [{"sig": s, "detail": d} for s, d in v]
     if case["fn"] == "verbatim":
         v, _ = eval_verbatim(tuple(case["settings"]))
         return [{"sig": s, "detail": d} for s, d in v]
